@@ -25,39 +25,39 @@ package sql
 
 // ---- C06: every pop query on keto_relation_tuples starts from queryWithNetwork
 //@ func (*Persister).queryWithNetwork
-//@   props C06
+//@   props C06 C13
 //@   modifies nothing
 //@   requires p != nil
 //@   ensures result != nil && fresh(result) && qnidset(result) && qnid(result) == netid(p, ctx)
 //@   ensures !qafterset(result) && !qordered(result) && qlimit(result) == -1 && !qraw(result)
 
 //@ func (*Persister).whereSubject
-//@   props C06 C07
+//@   props C06 C07 C13
 //@   requires q != nil && (sub == nil || wfsubject(sub))
 //@   modifies qafterset(q), qafter(q)
 //@   ensures qafterset(q) == old(qafterset(q)) && qafter(q) == old(qafter(q))
 
 //@ func (*Persister).whereQuery
-//@   props C06 C07
+//@   props C06 C07 C13
 //@   requires q != nil && wfquery(rq)
 //@   modifies qafterset(q), qafter(q)
 //@   ensures qafterset(q) == old(qafterset(q)) && qafter(q) == old(qafter(q))
 
 // ---- C07: keyset pagination
 //@ func internalPaginationFromOptions
-//@   props C07
+//@   props C07 C13
 //@   modifies nothing
 //@   ensures result0 != nil && fresh(result0)
 //@   ensures[C07] page-size: result0.PerPage == (optsize(opts) == 0 ? 100 : optsize(opts)) && result0.PerPage >= 1
 //@   ensures[C07] first-page: opttoken(opts) == "" ==> result1 == nil && result0.LastID == uuid.Nil
 
 //@ func (*RelationTuple).ToInternal
-//@   props C07
+//@   props C07 C13
 //@   modifies nothing
 //@   ensures r != nil ==> result0 != nil && fresh(result0) && result1 == nil
 
 //@ func (*Persister).GetRelationTuples
-//@   props C06 C07
+//@   props C06 C07 C13
 //@   requires p != nil && p.d != nil && wfquery(query) && ctx != nil
 //@   modifies db
 //@   ensures[C17] read-only: db == old(db)
@@ -69,13 +69,13 @@ package sql
 //@   loop 1 invariant len(internalRes) == $n && (isnil(internalRes) || fresh(internalRes))
 
 //@ func (*Persister).ExistsRelationTuples
-//@   props C06
+//@   props C06 C13
 //@   requires p != nil && p.d != nil && wfquery(query) && ctx != nil
 //@   modifies db
 //@   ensures[C17] read-only: db == old(db)
 
 //@ func (*Persister).DeleteAllRelationTuples$1
-//@   props C05 C06
+//@   props C05 C06 C13
 //@   requires p != nil && wfquery(query)
 //@   callsite (*Persister).queryWithNetwork requires[C05] tx-context: $arg1 == ctx
 
